@@ -12,13 +12,19 @@ THEOREMS = [
     "C13_resolved_contract_recovered",
     "C13_dust_failback_lost_refuted",
     "C13_no_lost_progress_refuted",
+    "C13_incoming_no_contradiction",
+    "C13_incoming_outcome_caused",
+    "C13_incoming_refines_script",
+    "C13_incoming_progress",
+    "C13_incoming_preimage_wins",
+    "C13_incoming_same_outcome",
 ]
 MODULE = "LV.Arb.RestartProps"
 TARGETS = ["theories/Arb/RestartProps.vo", "theories/Arb/RestartExec.vo",
            "theories/Arb/RestartExamples.vo"]
 WARM = [{"pkg": "contractcourt", "files": ["contractcourt/verif_restart_test.go"]}]
 IMPORTS = ("From Coq Require Import List NArith Bool.\nImport ListNotations.\n"
-           "From LV Require Import Arb.RestartModel Arb.RestartExec.\n")
+           "From LV Require Import Arb.RestartModel Arb.RestartIncModel Arb.RestartExec.\n")
 
 KINDS = {"coop": "KCoop", "local": "KLocal", "remote": "KRemote", "pending": "KRemote",
          "breach": "KBreach"}
@@ -95,8 +101,27 @@ def case_term(c):
             items.append("ICrash")
         else:
             items.append("ISnap " + snap_term(sp, it["d"]))
-    return "(mkCase %s %s %s %s)" % (scen_term(sp), clist(items), snap_term(sp, c["end"]),
-                                     clist([out_term(o) for o in c["outs"]]))
+    return "(mkCase %s %s %s %s %s)" % (scen_term(sp), clist(items), snap_term(sp, c["end"]),
+                                        clist([out_term(o) for o in c["outs"]]),
+                                        clist(inc_terms(sp)))
+
+
+# received-htlc resolver kinds -> (two-stage, claim branch, output index of ClaimOutpoint)
+INC_KINDS = {"in_claim_remote": (False, True, None), "in_expire_remote": (False, False, None),
+             "in_claim_local2": (True, True, 0), "in_expire_local2": (True, False, 1)}
+
+
+def inc_terms(sp):
+    """(iparams, branch) of every received-htlc resolver of the scenario: the
+    model checks that the scenario's script IS RestartIncModel.inc_script."""
+    res = []
+    for r in sp["resolvers"]:
+        if r["kind"] in INC_KINDS:
+            two, claim, cidx = INC_KINDS[r["kind"]]
+            res.append("(mkIP %s %s %s %s, %s)" % (cbool(two), cN(r["key"]), cN(r["idx"]),
+                                                   cN(r["key"] if cidx is None else cidx),
+                                                   cbool(claim)))
+    return res
 
 
 # ---------------------------------------------------------------------------
@@ -112,14 +137,13 @@ def progress_of(sp, d):
     return res
 
 
-F3_SIG = "C13 lost:htlc-actions-after-restart-in-contract-closed "
-
-
 def f3_window(c):
-    """Finding C13-F3: the run has a stop while the arbitrator log says
-    StateContractClosed and the scenario has no htlc within the broadcast
-    delta at the closing height: the restarted node re-runs the state with
-    chainTrigger, for which checkCommitChainActions yields no actions."""
+    """Regression for the repaired finding C13-F3 (commit 276b5b1): the run has a
+    stop while the arbitrator log says StateContractClosed in a scenario with NO
+    htlc within the broadcast delta at the closing height (before the fix the
+    restarted node re-ran the state with chainTrigger, for which
+    checkCommitChainActions yields no actions: no htlc resolver, no dust
+    fail-back)."""
     if not c["spec"].get("farexp"):
         return False
     prev = None
@@ -137,7 +161,6 @@ def predicate(c, base):
     fails = []
     sp = c["spec"]
     name = sp["name"]
-    f3 = f3_window(c)
     # resolved only when done: in every database content the channel is
     # marked fully closed only with no contract left, and it is marked while
     # the log says FullyResolved.
@@ -188,7 +211,7 @@ def predicate(c, base):
                       "outputs %s never happen in the uninterrupted run" % sorted(co - bo)))
     # same terminal outcome
     if not c["end"]["full"]:
-        sig = (F3_SIG + name) if f3 else "C13 stuck:other %s" % name
+        sig = "C13 stuck:other %s" % name
         msg = "never marked fully resolved; final database %s" % c["end"]
         fails.append(("C13_progress", sig, msg))
     else:
@@ -198,8 +221,6 @@ def predicate(c, base):
             if missing and spurious and all(o[0] == 1 and o[1] in sp["fails_default"]
                                             for o in missing):
                 sig = "C13 lost:dust-failback-after-spurious-broadcast " + name
-            elif f3 and missing and not (co - bo):
-                sig = F3_SIG + name
             else:
                 sig = "C13 outcome-differs " + name
             fails.append(("C13_same_outcome", sig,
@@ -208,8 +229,7 @@ def predicate(c, base):
         br = {tuple(r) for r in base["end"]["rep"]}
         cr = {tuple(r) for r in c["end"]["rep"]}
         if br != cr:
-            fails.append(("C13_same_outcome",
-                          (F3_SIG + name) if f3 and cr < br else "C13 reports-differ " + name,
+            fails.append(("C13_same_outcome", "C13 reports-differ " + name,
                           "reports %s vs uninterrupted %s" % (sorted(cr), sorted(br))))
     return fails
 
@@ -280,6 +300,11 @@ def run(ctx):
                       {"why": "no run stopped between a final Checkpoint(resolved) and "
                               "log.ResolveContract: the C13-F1 regression case was not exercised"},
                       signature="harness-f1-window", failing_input=False)
+    if not ctx.replay and not any(f3_window(c) for c in rows):
+        ctx.violation("harness_failed", "TestVerifRestart",
+                      {"why": "no run stopped in StateContractClosed in a scenario without an htlc "
+                              "near its expiry: the C13-F3 regression case was not exercised"},
+                      signature="harness-f3-window", failing_input=False)
     for c in rows:
         if c.get("err"):
             ctx.violation("harness_failed", "TestVerifRestart", {"case": c}, signature="harness-case",
@@ -306,17 +331,15 @@ def run(ctx):
                            "fails": [msg]}, signature=sig)
     # correspondence with the model
     terms, idx = [], []
-    f3_runs = 0
+    unmapped = 0
     for i, c in enumerate(rows):
-        if f3_window(c):
-            # outside the model: it assumes that re-running
-            # StateContractClosed computes the close-trigger actions
-            f3_runs += 1
-            continue
         try:
             terms.append(case_term(c))
             idx.append(i)
         except Unmapped as e:
+            unmapped += 1
+            if unmapped > 3:
+                continue
             ctx.violation("correspondence_mismatch", "Arb.RestartExec (resolver script)",
                           {"case": {"spec": c["spec"], "crashes": c["crashes"],
                                     "envcrash": c.get("envcrash", False)}, "why": str(e)},
@@ -337,7 +360,8 @@ def run(ctx):
                                     "envcrash": c.get("envcrash", False)},
                        "disagreeing_items": items,
                        "legend": "index of the first database snapshot that is not a model step; "
-                                 "9000 final database, 9001 output set, 9002 scenario ill-formed",
+                                 "9000 final database, 9001 output set, 9002 scenario ill-formed, "
+                                 "9003 received-htlc script differs from RestartIncModel.inc_script",
                        "trace": c["trace"], "outs": c["outs"]},
                       signature="C13 restart mismatch " + c["spec"]["name"],
                       failing_input=bool(predicate(c, base[c["spec"]["name"]])))
@@ -366,7 +390,7 @@ def run(ctx):
             1 for c in rows if not c["spec"]["userfc"] and any(o[0] == 4 for o in c["outs"])),
         "runs_not_terminal": sum(1 for c in rows if not c["end"]["full"]),
         "f1_window_runs": f1_runs, "f1_window_runs_terminal": f1_term,
-        "f3_window_runs_not_compared_with_model": f3_runs,
+        "f3_window_runs": sum(1 for c in rows if f3_window(c)),
         "env_crash_runs": sum(1 for c in rows if c.get("envcrash")),
         "received_htlc_final_outcomes": {
             "settled": sum(1 for c in rows for o in c["outs"] if o[0] == 3 and o[2] == 1),
@@ -374,7 +398,7 @@ def run(ctx):
         "progress_regressions_observed": lost,
         "predicate_failures_by_class": sigs,
         "samples": [{"scenario": rows[0]["spec"]["name"], "crashes": rows[0]["crashes"]}],
-        "correspondence_mismatches": len(bad),
+        "correspondence_mismatches": len(bad) + unmapped,
     })
     ctx.assumptions += [
         "chain, sweeper, switch and breach arbitrator are deterministic mocks that re-deliver "
